@@ -48,6 +48,46 @@ def run(ctx):
     _legacy_state(ctx, model)
     _compiled(ctx, model)
     _digest(ctx, model)
+    _memoized_hashes(ctx, model)
+    # a compiled expression is re-compiled from (expression, variables) in the
+    # consumer: its positional signature must not depend on the process (set
+    # order follows the string-hash seed) -- C13's rule instances on _compile
+    from .c13 import _compile as _compile_rules
+    _compile_rules(ctx, model)
+
+
+def _memoized_hashes(ctx, model):
+    """A hash depends on the process (string hashing is seeded).  A class of the
+    package whose __hash__ is memoized on the instance (pytools.memoize_method
+    keeps the value in the instance __dict__) ships that value in its pickles
+    unless it takes the memo out of its state: the unpickled object then
+    answers hash() with the producer's value, and the hash fast path of the
+    node classes' __eq__ makes the enclosing expression unequal to a locally
+    built one."""
+    MEMO = {"memoize_method", "cached_property", "memoize", "lru_cache", "cache"}
+    n_cls = 0
+    for c in sorted(model.classes.values(), key=lambda k: k.key):
+        n_cls += 1
+        h = c.members.get("__hash__")
+        if h is None or h.kind != "func":
+            continue
+        memo = [d for d in h.decorators if d in MEMO]
+        if not memo:
+            continue
+        # does the class (or a base) keep the memo out of the pickle?
+        guarded = False
+        for name in ("__getstate__", "__reduce__", "__reduce_ex__"):
+            mm = model.lookup(c, name)
+            if mm is not None and mm.kind == "func":
+                guarded = True
+        ctx.ob(f"S/pickle/memoized-hash/{c.name}", guarded, c.module.loc(h.node),
+               f"{c.name} defines its own pickle state" if guarded else
+               f"{c.name}.__hash__ is memoized on the instance ({memo[0]}) and "
+               f"{c.name} pickles its instance __dict__ as it is: a hash computed "
+               "before pickling is what the unpickled copy reports in a process "
+               "with another hash seed, so an expression holding one is unequal "
+               "to (and does not find) the same expression built there")
+    ctx.floor("classes scanned for memoized hashes", n_cls, 150)
 
 
 def _no_bypass(ctx, model):
